@@ -11,6 +11,7 @@ CONSTANTS Shapes,        \* set of <<n, t>>
           IdSets,        \* set of identifier sets
           KeyChoices, CoeffChoices, RandChoices, Msgs,
           ListOrders,    \* orders in which the dealer is handed the identifier list: subset of {"asc","desc","rot"}
+          BatchAtEnd,    \* the threshold signature is finally queued (twice) in a batch verifier
           MaxExtra,      \* |S| <= t + MaxExtra
           EMIT           \* print one replayable script per finished behaviour
 
@@ -86,10 +87,18 @@ DoAggregate ==
 DoVerify ==
   /\ pc[1] = "verify"
   /\ ActVerify(PKP, sc.msg, SIG)
+  /\ pc' = IF BatchAtEnd /\ last'.res.ok THEN <<"batch", 0>> ELSE <<"done", 0>>
+  /\ UNCHANGED sc
+
+\* a threshold signature is an ordinary one for the batch verifier too (as handed over by aggregate, not
+\* re-decoded from its wire form)
+DoBatch ==
+  /\ pc[1] = "batch"
+  /\ LET it == [vk |-> PKP, sig |-> SIG, msg |-> sc.msg] IN ActBatch(<<it, it>>, <<1, 2>>)
   /\ pc' = <<"done", 0>>
   /\ UNCHANGED sc
 
-Next == KeyGen \/ MakeKp \/ Choose \/ DoCommit \/ DoPackage \/ DoSign
+Next == DoBatch \/ KeyGen \/ MakeKp \/ Choose \/ DoCommit \/ DoPackage \/ DoSign
         \/ DoVerifyShare \/ DoAggregate \/ DoVerify
 
 Spec == Init /\ [][Next]_vars
